@@ -43,7 +43,7 @@ func timePairs(ttls []int, evs []string) []tpair {
 		}
 		for j := i + 1; j < len(evs); j++ {
 			fr := strings.Split(evs[j], ":")
-			if (fr[0] == "look" || fr[0] == "fwd" || fr[0] == "pend" || fr[0] == "poll") && len(fr) >= 3 && fr[2] == fw[2] {
+			if (fr[0] == "look" || fr[0] == "fwd" || fr[0] == "pend" || fr[0] == "poll" || fr[0] == "slook" || fr[0] == "send") && len(fr) >= 3 && fr[2] == fw[2] {
 				ps = append(ps, tpair{w: i, r: j, ttl: ttlOf(ttls, n)})
 			}
 		}
